@@ -2,6 +2,7 @@ import Driver.Common
 import Logrange.Model.TIndexId
 import Logrange.Model.TIndexSave
 import Logrange.Model.TIndexGuard
+import Logrange.Model.TIndexUtf8
 /-! Model driver for C06 (partition identity and FROM selection). State: the tag index (`TIndexId.St`).
 
 * `reset` → `ok`
@@ -11,6 +12,8 @@ import Logrange.Model.TIndexGuard
 * `visit <source>` → `model=<ok id*|rej> spec=<ok id*|rej>`  (ids sorted; spec = filter by the reference evaluator)
 * `eval <source> | <k> <v> …` → `model=<0|1|rej> spec=<0|1|rej>`                   (one tag set, stateless)
 * `like <pattern> <name>` → `1|0|bad`                                              (`path.Match`)
+* `goc`/`gocf` answer `badutf8` when the regenerated fact `utf8GuardOnCreate` holds and the call may create a partition whose
+  canonical line is not valid UTF-8 (`Props.C06Utf8.code_step_decomp`)
 * `reparses <text>` → `0|1|rej` (the canonical line of the parsed set reads back as the same set — the guard of proposed-fixes/F08r.diff);
   when the regenerated fact `Generated.C06.reparseGuardBeforeLookup` is true, `goc`/`gocf` answer `unwritable` for a text the guard
   refuses (`Props.C06Guard.guarded_step_decomp`)
@@ -105,6 +108,8 @@ def showIdsD (seen : List Nat) (l : List Nat) : String :=
   if all.isEmpty then "ok" else "ok " ++ " ".intercalate all
 
 def gocStep (d : DSt) (raw : Bytes) (create saveOK : Bool) : DSt × String :=
+  -- fix a7918dd (regenerated fact): refused when the call may create and the canonical line is not valid UTF-8
+  if Logrange.Generated.C06.utf8GuardOnCreate && Logrange.TIndexUtf8.utf8Rejects d.st.base raw create then (d, "badutf8") else
   if Logrange.TIndexGuard.codeGuard && Logrange.TIndexGuard.guardRejects d.st.base raw then (d, "unwritable") else
   let (s', r) := getOrCreateS codeFacts d.st raw create saveOK
   match r with
